@@ -111,7 +111,7 @@ def run(tier):
     rng = random.Random(vlib.seed())
     quick = tier == "quick"
     scen = []
-    for i in range(2500 if quick else 30000):
+    for i in range(2500 if quick else 100000):
         sc = mk(rng, quick)
         # the synchronous and the asynchronous path must produce identical sequences: run the same scenario through both
         scen.append(sc)
